@@ -752,6 +752,8 @@ func hasBoundMemo(t *Term, memo map[int]bool) bool {
 // Script builds an SMT-LIB script: declarations for every symbol/function used by the
 // given terms, define-funs for shared subterms.
 type Script struct {
+	dropQ    bool // hypotheses: replace positively occurring bounded foralls by true (their instances are separate facts)
+	dmemo    [2]map[int]*Term
 	sb       strings.Builder
 	declared map[string]bool
 	defined  map[int]bool
@@ -798,6 +800,15 @@ func (s *Script) prepare(roots ...*Term) {
 }
 
 func (s *Script) Assert(t *Term) {
+	if s.dropQ {
+		if s.dmemo[0] == nil {
+			s.dmemo[0], s.dmemo[1] = map[int]*Term{}, map[int]*Term{}
+		}
+		t = dropQuant(t, true, &s.dmemo)
+		if t == True {
+			return
+		}
+	}
 	s.prepare(t)
 	var sb strings.Builder
 	s.p.write(&sb, t)
@@ -820,4 +831,43 @@ func sortedKeys[V any](m map[string]V) []string {
 	}
 	sort.Strings(ks)
 	return ks
+}
+
+// dropQuant weakens a hypothesis: bounded foralls (one Int variable, produced by the contract language) that occur
+// positively are replaced by true. The executor has added their instances at the terms of interest as separate
+// facts, so the query keeps what the deterministic instantiation found and loses only what e-matching would add
+// (including its matching loops on bodies like a[k+1] == f(a[k])). `unsat` of the weakened query is sound.
+func dropQuant(t *Term, pos bool, memo *[2]map[int]*Term) *Term {
+	pi := 0
+	if pos {
+		pi = 1
+	}
+	if r, ok := memo[pi][t.id]; ok {
+		return r
+	}
+	r := t
+	switch t.op {
+	case "and":
+		as := make([]*Term, len(t.args))
+		for i, a := range t.args {
+			as[i] = dropQuant(a, pos, memo)
+		}
+		r = And(as...)
+	case "or":
+		as := make([]*Term, len(t.args))
+		for i, a := range t.args {
+			as[i] = dropQuant(a, pos, memo)
+		}
+		r = Or(as...)
+	case "not":
+		r = Not(dropQuant(t.args[0], !pos, memo))
+	case "=>":
+		r = Implies(dropQuant(t.args[0], !pos, memo), dropQuant(t.args[1], pos, memo))
+	case "forall":
+		if pos && t.val == "1" && t.args[0].sort == SInt {
+			r = True
+		}
+	}
+	memo[pi][t.id] = r
+	return r
 }
